@@ -70,6 +70,13 @@ RunFails(r, from) ==
   IN
   IF o.panic # "" THEN <<"panic">>
   ELSE IF \E i \in DOMAIN ds : ds[i].unparsed THEN <<"unparsable_payload">>
+  ELSE IF r.failAt >= 0 THEN
+     \* a module fails deterministically at block failAt: invalid-argument, and what was delivered is a correct prefix before it
+     F(o.err # "" /\ o.code = "invalid_argument", "deterministic_failure_not_reported_as_invalid_argument")
+  \o F(\A i \in DOMAIN ds : ds[i].num < r.failAt, "block_delivered_at_or_after_the_failing_block")
+  \o F(\A i \in DOMAIN ds : ds[i].num >= S2 /\ ds[i].num < E, "block_outside_requested_range")
+  \o F(\A i \in 1..(Len(ds) - 1) : ds[i].num < ds[i + 1].num, "not_strictly_increasing")
+  \o F(\A i \in DOMAIN ds : ds[i].num <= MaxBlock => ds[i].payload = PayloadOf(Res(ds[i].num), OutMod.name), "payload_differs_from_sequential_execution")
   ELSE
      F(o.err = "", FailSig(r))
   \o F(\A i \in DOMAIN ds : ds[i].num >= S2 /\ ds[i].num < E, "block_outside_requested_range")
